@@ -239,6 +239,24 @@ theorem endpush_witness :
     shown (scenarioEndPush Cfg.repaired) = ["z", "NULL", "a1", "a2", "NULL", "a3", "a3", "NULL"] := by
   decide
 
+/-- `a[1-4]`: one `hostlist_next`, `hostlist_uniq`, one more -/
+def scenarioUniqReset (cfg : Cfg) : EM (List String) := do
+  let (_, _, e) ← pushE cfg EL.new "a[1-4]".toList
+  let e := itNew e 0
+  let (_, e) ← nexts cfg 1 e 0
+  match uniqE cfg e with
+  | none => .error "assert"
+  | some e =>
+    let (xs, _) ← nexts cfg 1 e 0
+    pure (strs xs)
+
+/-- F16-UNIQ-NORESET: as found the iterator of a one-record list goes on (a2) although every other
+    `hostlist_uniq` restarts it; repaired (findings/C16-UNIQ-NORESET.patch) it starts over (a1) -/
+theorem uniq_noreset_witness :
+    shown (scenarioUniqReset { Cfg.repaired with fixUniqReset := false }) = ["a2"] ∧
+    shown (scenarioUniqReset Cfg.repaired) = ["a1"] := by
+  decide
+
 /-- F16-DELETE-UNDER-ITERATOR (open, every variant): `a[1-5]`, it_next (a1), delete position 0,
     it_next yields a3 … the list says a2 is next: the iterator skipped a host -/
 theorem delete_under_iterator_witness :
